@@ -36,9 +36,12 @@ impl PieceSolver {
             .max()
             .unwrap_or(0);
 
+        // The byte buffer is not pre-sized: the piece length is only declared by the torrent, and it grows
+        // with the data actually read from disk.
+        let _ = max_piece_length;
         let match_result = PieceMatchResult {
             source: Vec::with_capacity(max_files),
-            bytes: Vec::with_capacity(max_piece_length as usize)
+            bytes: Vec::new()
         };
 
         PieceSolver {
